@@ -18,7 +18,7 @@ func checkC01(r *Run) propMeta {
 		Explanation: "Result equivalence between emitted SQL and openCypher semantics for all queries and graphs cannot be decided by static analysis of the translator; this check decides only necessary conditions whose violation silently changes answers: (R1) formatter completeness — every field of a pgsql AST node type that the translator or optimiser gives a value is read by the SQL formatter (a populated field that is never rendered drops a clause such as DISTINCT, ORDER BY, LIMIT); (R2) translator consumption — every field of every Cypher model type is read somewhere in translate ∪ optimize, or is listed with a reason (a modelled construct the translator never looks at cannot be translated faithfully); (R3) guards consulted — the kind matcher chooses contains (@>) vs overlap (&&) by KindMatcher.IsExclusive; the string-equality lowering is conjoined with the jsonb_typeof(...) = 'string' check; every recursive expansion step that extends the path is built together with the edge-not-in-path (relationship uniqueness) conjunct. (R5) recogniser totality — the shape recognisers that let a hand-built statement replace the whole translation (count-store fast path, aggregate traversal count) look, for every model node they bind, at every field the parser or a query builder can populate (fields only the optimiser writes are excluded; union siblings and provably irrelevant flags are listed with a reason); (R6) sibling agreement — every cross-segment order restoration (reversePathCompositeExpressions) is guarded by exactly the PathDirectionReversed flag. (R7) every Copy/Snapshot/Clone method of the translator's own state types (Scope, BoundIdentifier, IdentifierSet …) that returns a composite literal gives every field; (R8) the LIKE-pattern builder escapes all of \\, % and _. Everything else in C01 is NOT decided.",
 		Assumptions: []string{"none beyond go/types"},
 		TrustedBase: []string{"go/types", "this analyser"}}
-	if err := r.Load("./cypher/...", "./graph/..."); err != nil {
+	if err := r.Load("./cypher/...", "./graph/...", "./drivers/pg"); err != nil {
 		r.Fatal("load: %v", err)
 	}
 	cg := BuildCallGraph(r, func(p string) bool { return strings.Contains(p, "/cypher/models") || strings.HasSuffix(p, "/graph") })
@@ -91,6 +91,7 @@ func checkC01(r *Run) propMeta {
 	checkLikeEscaping(r, tp)
 	checkPartStateConsumed(r, tp)
 	checkAggregateDistinct(r, tp, pg)
+	checkDecoderScratchFresh(r, r.MustPkg("drivers/pg"))
 	r.Floor("C01-R9-part-state-consumed", 6)
 	r.Floor("C01-R1-formatter-completeness", 60)
 	r.Floor("C01-R2-translator-consumption", 60)
